@@ -144,15 +144,20 @@ def execute(scn):
     interp, runs0, sc0, _ = ctxsim.run_threads(scn, progs, {"kind": "solo"}, rng(seed, "schedule0"))
     solo = _transcripts(runs0)
     scn2 = dict(scn, _expected_yields=max(50, sc0.total_yields))
+    if scn["sched"]["kind"] == "rendezvous" and scn["sched"].get("line") is None:
+        lines = sorted(sc0.lines_seen)
+        pick = lines[rng(seed, "rendezvous").randrange(len(lines))] if lines else ("", 0)
+        scn2["sched"] = dict(scn["sched"], line=list(pick))
     ctxsim.clear_caches()
     interp1, runs1, sc1, _ = ctxsim.run_threads(
-        scn2, progs, scn["sched"], rng(seed, "schedule"), opcode_storage=scn.get("opcode_storage", False),
+        scn2, progs, scn2["sched"], rng(seed, "schedule"), opcode_storage=scn.get("opcode_storage", False),
         opcode_all=scn.get("opcode_all", False))
     conc = _transcripts(runs1)
     stats.inc("runs")
     stats.inc("yield_points", sc1.total_yields)
     stats.inc("handovers", len([h for h in sc1.handovers if h[1] != "fin"]))
     stats.inc("strategy:" + scn["sched"]["kind"] + (":" + scn["sched"]["w"] if scn["sched"]["kind"] == "window" else ""))
+    stats.mx("distinct_lines_in_a_run", len(sc0.lines_seen))
     stats.inc(f"threads:{n}")
     if scn.get("opcode_storage"):
         stats.inc("opcode_level_runs_storage")
